@@ -1,2 +1,102 @@
-(* C16 -- placeholder while the suite is being built *)
-From GCA Require Import ClientEnergy.
+(* C16 -- energy readings become report values by fixed rules, for every file
+   content.  Only statements, each closed by [exact]; proofs are in
+   ClientEnergy_lemmas.v.
+
+   The model (ClientEnergy.v) starts from the rows Go's encoding/csv delivers
+   and from strconv's verdict on every field; [G] is glow.GenesisTime, [mult]
+   and [div] the calibration values (binary64), arithmetic is Flocq's IEEE-754
+   binary64 with round-to-nearest-even.  The reader models the code AFTER the
+   repair of D11 ([energy_rows_unchecked] is the loop body before it). *)
+From Coq Require Import ZArith List Bool Reals.
+From Flocq Require Import Core.Core IEEE754.BinarySingleNaN IEEE754.Binary IEEE754.Bits.
+From GCA Require Import Wrap Timeslot ClientEnergy ClientEnergy_lemmas.
+Import ListNotations.
+Open Scope Z_scope.
+
+(* no row shape panics (rows with 0, 1, 2, 3 ... fields, any field contents); the records are the
+   concatenation, in file order, of what each delivered row yields *)
+Theorem c16_total : forall G mult div rows,
+  energy_rows G mult div rows <> Panic /\
+  energy_rows G mult div rows = Records (concat (map (row_records G mult div) rows)).
+Proof. exact (fun G m d rows => conj (energy_rows_no_panic G m d rows) (energy_rows_total G m d rows)). Qed.
+
+(* before the repair a one-field row with a usable timestamp did panic (D11) *)
+Theorem c16_unchecked_panics : forall G mult div t, G <= t ->
+  energy_rows_unchecked G mult div
+    [[{| f_int := None; f_header := true; f_float := None |}];
+     [{| f_int := Some t; f_header := false; f_float := None |}]] = Panic.
+Proof. exact unchecked_panics. Qed.
+
+(* a row with at least two fields and an integer timestamp t, G <= t < G+2^32, yields exactly one
+   record, for the 5-minute slot containing t; earlier timestamps, unusable timestamps and rows with
+   fewer than two fields yield none *)
+Theorem c16_slot : forall G mult div f0 f1 rest,
+  (forall t, f_int f0 = Some t -> G <= t < G + 2^32 ->
+     row_records G mult div (f0 :: f1 :: rest) =
+     [{| e_slot := (t - G) / 300; e_val := energy_value mult div (f_float f1) |}]) /\
+  (forall t, f_int f0 = Some t -> t < G -> row_records G mult div (f0 :: f1 :: rest) = []) /\
+  (f_int f0 = None -> row_records G mult div (f0 :: f1 :: rest) = []) /\
+  (forall r, (length r < 2)%nat -> row_records G mult div r = []).
+Proof.
+  exact (fun G m d f0 f1 rest =>
+           conj (fun t => slot_rule G m d f0 f1 rest t)
+          (conj (fun t => before_genesis_skipped G m d f0 f1 rest t)
+          (conj (bad_timestamp_skipped G m d f0 f1 rest)
+                (short_row_skipped G m d)))).
+Qed.
+
+(* the value: 3 for an unparseable reading; 2 for a finite reading of magnitude below 24 (strict);
+   otherwise the IEEE product-then-quotient r = (mult * f) / div, and when r is finite with
+   |r| < 2^63 the record carries trunc(r) in two's complement (mod 2^64) *)
+Theorem c16_value : forall (mult div : binary64) (pf : option Z),
+  (pf = None -> energy_value mult div pf = VExact 3) /\
+  (forall bits, pf = Some bits -> let f := b64_of_bits bits in
+     (is_finite 53 1024 f = true -> (Rabs (B2R 53 1024 f) < 24)%R -> energy_value mult div pf = VExact 2) /\
+     ((is_finite 53 1024 f = false \/ (24 <= Rabs (B2R 53 1024 f))%R) ->
+        let r := scaled mult div f in
+        energy_value mult div pf = to_uint64 r /\
+        (is_finite 53 1024 r = true -> (Rabs (B2R 53 1024 r) < IZR (2^63))%R ->
+           energy_value mult div pf = VExact ((Ztrunc (B2R 53 1024 r)) mod 2^64)))).
+Proof. exact value_rule. Qed.
+
+(* calibration file: absent = defaults; first line multiplier, second line divider, further lines
+   ignored; every other shape is an error, and only those shapes are accepted *)
+Theorem c16_ct : forall dm dd : Z,
+  ct_settings dm dd CtAbsent = CtOk dm dd /\
+  ct_settings dm dd CtUnreadable = CtErr CtOpen /\
+  (forall m d rest, ct_settings dm dd (CtLines (Some m :: Some d :: rest)) = CtOk m d) /\
+  (forall l m d, ct_settings dm dd (CtLines l) = CtOk m d -> exists rest, l = Some m :: Some d :: rest) /\
+  ct_settings dm dd (CtLines []) = CtErr CtNoFirst /\
+  (forall rest, ct_settings dm dd (CtLines (None :: rest)) = CtErr CtBadFirst) /\
+  (forall m, ct_settings dm dd (CtLines [Some m]) = CtErr CtNoSecond) /\
+  (forall m rest, ct_settings dm dd (CtLines (Some m :: None :: rest)) = CtErr CtBadSecond).
+Proof. exact ct_rule. Qed.
+
+(* ---- non-vacuity and the documented edge (K5) ------------------------------ *)
+(* -2000 * 37.5 / 1000 = -75 -> 2^64 - 75 ; 23.5 -> 2 ; unparseable -> 3 *)
+Example c16_value_example :
+  let m := b64_of_bits 0xC09F400000000000 in let d := b64_of_bits 0x408F400000000000 in
+  energy_value m d (Some 0x4042C00000000000) = VExact (2^64 - 75) /\
+  energy_value m d (Some 0x4037800000000000) = VExact 2 /\
+  energy_value m d None = VExact 3 /\
+  energy_value m d (Some 0x7FF8000000000001) = VUnspec.
+Proof. repeat split; vm_compute; reflexivity. Qed.
+
+Example c16_rows_example :
+  let fld a b c := {| f_int := a; f_header := b; f_float := c |} in
+  energy_rows 1000 (b64_of_bits 0x408F400000000000) (b64_of_bits 0x408F400000000000)
+    [[fld None true None; fld None false None];
+     [fld (Some 1000) false (Some 0x408F400000000000); fld None false (Some 0x4059000000000000)];
+     [fld (Some 1299) false None];
+     [fld (Some 999) false None; fld (Some 5) false (Some 0x4014000000000000)];
+     [fld (Some 1300) false None; fld None false None; fld None false None]]
+  = Records [{| e_slot := 0; e_val := VExact 100 |}; {| e_slot := 1; e_val := VExact 3 |}].
+Proof. vm_compute. reflexivity. Qed.
+
+(* K5, outside the stated domain: a timestamp G + 2^32 + 600 belongs to slot 14316559 but is
+   reported for slot 2 (uint32 truncation in glow.UnixToTimeslot) *)
+Example c16_slot_wraps_beyond_domain : forall G mult div f0 f1,
+  f_int f0 = Some (G + 2^32 + 600) ->
+  exists v, row_records G mult div [f0; f1] = [{| e_slot := 2; e_val := v |}] /\
+            (G + 2^32 + 600 - G) / 300 = 14316559.
+Proof. exact slot_wrap_example. Qed.
